@@ -114,6 +114,13 @@ func (vc *VC) execExternal(f *ssa.Function, c *ssa.CallCommon, h *Heap, reach st
 		vc.safety("ext."+name, reach, "false", "external function "+name+" is not known to be panic-free")
 	}
 	switch name {
+	case "hash/fnv.New64a":
+		// a new hasher that has consumed nothing yet (ghost: Ghash_data[ref] is the text written so far)
+		vc.compDecl("Ghash_data", "(Array Int Str)")
+		r := vc.newRef(h, "hasher")
+		vc.set(h, "Ghash_data", app("store", vc.get(h, "Ghash_data"), r, vc.u.strLit("")))
+		tag := vc.u.tagOf(types.NewPointer(types.Typ[types.Uint64])) // stands for *fnv.sum64a
+		return []Term{mk(vc.define("hasher", SIface, app("mk-iface", fmt.Sprint(tag), r)), SIface).withType(f.Signature.Results().At(0).Type())}
 	case "(encoding/binary.bigEndian).Uint16":
 		// documented semantics: b[0]<<8 | b[1], panics when len(b) < 2
 		b := vc.value(c.Args[1])
@@ -209,7 +216,16 @@ func (vc *VC) execExternal(f *ssa.Function, c *ssa.CallCommon, h *Heap, reach st
 						fname = fmt.Sprintf("%s.%d", fname, i)
 					}
 					var term string
-					if len(as) == 0 {
+					if sl, isSlice := rt.Underlying().(*types.Slice); isSlice && len(as) > 0 {
+						// a pure function returns a newly allocated slice whose length and contents are functions of the arguments
+						comp, es := vc.elemComp(sl.Elem())
+						r := vc.newRef(h, "extslice")
+						ln := app(vc.u.ufun(fname+".len", sorts, SInt), as...)
+						row := app(vc.u.ufun(fname+".row", sorts, fmt.Sprintf("(Array Int %s)", es)), as...)
+						vc.assume("true", app(">=", ln, "0"))
+						vc.set(h, comp, app("store", vc.get(h, comp), r, row))
+						term = app("mk-slice", r, "0", ln, ln)
+					} else if len(as) == 0 {
 						vc.u.declare(fname, fmt.Sprintf("(declare-const %s %s)", fname, rs))
 						term = fname
 					} else {
@@ -322,6 +338,29 @@ func (vc *VC) execExternalMethod(c *ssa.CallCommon, recv Term, args []Term, h *H
 	case "error.Error", "context.Context.Done", "context.Context.Err", "hash.Hash64.Sum64", "hash.Hash64.Write", "fmt.Stringer.String":
 	default:
 		vc.safety("extm."+name, reach, "false", "external interface method "+name+" is not known to be panic-free")
+	}
+	switch name {
+	case "hash.Hash64.Write":
+		// the hasher consumes the bytes of a string: []byte(s)
+		vc.compDecl("Ghash_data", "(Array Int Str)")
+		ref := app("i.val", recv.S)
+		cur := app("select", vc.get(h, "Ghash_data"), ref)
+		var nw string
+		if cv, ok := c.Args[0].(*ssa.Convert); ok && vc.u.sortOf(cv.X.Type()) == SStr {
+			nw = app("gs.cat", cur, vc.value(cv.X).S)
+		} else {
+			nw = vc.fresh("hashdata", SStr)
+		}
+		vc.set(h, "Ghash_data", app("store", vc.get(h, "Ghash_data"), ref, nw))
+		return vc.resultTerms(sig, h, reach, "extm")
+	case "hash.Hash64.Sum64":
+		// FNV-1a of everything written so far: a function of that text (trusted: hash/fnv)
+		vc.compDecl("Ghash_data", "(Array Int Str)")
+		cur := app("select", vc.get(h, "Ghash_data"), app("i.val", recv.S))
+		t := app(vc.u.ufun("fnvStr", []Sort{SStr}, SInt), cur)
+		r := mk(vc.define("sum64", SInt, t), SInt).withType(types.Typ[types.Uint64])
+		vc.assume("true", and(app("<=", "0", r.S), app("<=", r.S, "18446744073709551615")))
+		return []Term{r}
 	}
 	// observers: deterministic in the receiver (and the heap epoch is ignored: external state is opaque)
 	res := vc.resultTerms(sig, h, reach, "extm")
